@@ -356,4 +356,21 @@ impl ConfigBuilder {
         let handle = KademliaHandle::new(cmd_tx, event_rx, config.next_query_id.clone());
         (config, handle)
     }
+
+    /// Verification hook: like [`ConfigBuilder::build`], but with a command channel of
+    /// `command_capacity` slots (the `try_*` methods of [`KademliaHandle`] fail when it is full, the
+    /// `async` ones wait) and an event channel of `event_capacity` slots.
+    pub fn verif_build_channels(
+        self,
+        command_capacity: usize,
+        event_capacity: usize,
+    ) -> (Config, KademliaHandle) {
+        let (mut config, _handle) = self.build();
+        let (cmd_tx, cmd_rx) = channel(command_capacity);
+        let (event_tx, event_rx) = channel(event_capacity);
+        config.cmd_rx = cmd_rx;
+        config.event_tx = event_tx;
+        let handle = KademliaHandle::new(cmd_tx, event_rx, config.next_query_id.clone());
+        (config, handle)
+    }
 }
